@@ -17,6 +17,25 @@ from .utils import CallbackSuccess, get_arrays_tol
 from .utils import exact_1d_array
 
 
+class _EmptyBounds:
+    """
+    Bounds of a problem without variables.
+
+    `scipy.optimize.Bounds` rejects empty arrays, but a problem whose
+    variables are all fixed by the bound constraints has no variable left.
+    """
+
+    lb = np.empty(0)
+    ub = np.empty(0)
+
+
+def _bounds(xl, xu):
+    """
+    Build the bounds ``xl <= x <= xu``, possibly without any variable.
+    """
+    return Bounds(xl, xu) if xl.size > 0 else _EmptyBounds()
+
+
 class ObjectiveFunction:
     """
     Real-valued objective function.
@@ -136,7 +155,10 @@ class BoundConstraints:
         self.m = np.count_nonzero(self.xl > -np.inf) + np.count_nonzero(
             self.xu < np.inf
         )
-        self.pcs = PreparedConstraint(bounds, np.ones(bounds.lb.size))
+        if self._xl.size > 0:
+            self.pcs = PreparedConstraint(bounds, np.ones(bounds.lb.size))
+        else:
+            self.pcs = None
 
     @property
     def xl(self):
@@ -706,7 +728,7 @@ class Problem:
         # Set the bound constraints.
         self._orig_bounds = bounds
         self._bounds = BoundConstraints(
-            Bounds(bounds.xl[~self._fixed_idx], bounds.xu[~self._fixed_idx])
+            _bounds(bounds.xl[~self._fixed_idx], bounds.xu[~self._fixed_idx])
         )
 
         # Set the initial guess.
@@ -739,7 +761,7 @@ class Problem:
             self._scaling_factor = 0.5 * (self._bounds.xu - self._bounds.xl)
             self._scaling_shift = 0.5 * (self._bounds.xu + self._bounds.xl)
             self._bounds = BoundConstraints(
-                Bounds(-np.ones(self.n), np.ones(self.n))
+                _bounds(-np.ones(self.n), np.ones(self.n))
             )
             b_eq = self._linear.b_eq - self._linear.a_eq @ self._scaling_shift
             self._linear = LinearConstraints(
